@@ -2393,7 +2393,16 @@ public:
     SBEPP_CPP14_CONSTEXPR reference operator[](size_type pos) const noexcept
     {
         SBEPP_ASSERT(pos < size());
-        return *(begin() + pos);
+        // `begin() + pos` would convert `pos` to `difference_type` which
+        // cannot represent the upper half of `size_type`
+        const auto dimension = (*this)(get_header_tag{});
+        const auto block_length = dimension.blockLength().value();
+        return *iterator{
+            (*this)(addressof_tag{}) + sbepp::size_bytes(dimension)
+                + static_cast<std::size_t>(pos) * block_length,
+            block_length,
+            pos,
+            (*this)(end_ptr_tag{})};
     }
 
     //! @brief Returns the first entry
